@@ -134,9 +134,10 @@ _ot = {}
 
 
 def taint(ctx):
-    if id(ctx) not in _ot:
-        _ot[id(ctx)] = OrderTaint(ctx)
-    return _ot[id(ctx)]
+    cache = ctx.__dict__.setdefault("_rule_cache", {})
+    if "order" not in cache:
+        cache["order"] = OrderTaint(ctx)
+    return cache["order"]
 
 
 def dict_build_order(ctx, mod, cls, fn, attrs):
